@@ -1,10 +1,7 @@
 package main
 
-type EzSpec struct{}
 type StreamSpec struct{}
 
 func runStream(sc *Scenario, res *Result, keepLog bool) {}
-func runEz(sc *Scenario, res *Result, keepLog bool) {}
 
 func genStream(seed uint64, faulty bool) *Scenario { return nil }
-func genEz(seed uint64, faulty bool) *Scenario     { return nil }
